@@ -40,7 +40,7 @@ static void run_program(vf_case *c, const vf_api *P, const vf_mat *A, uint64_t p
         out->h ^= hash_factors(P, &R.L, &R.U, R.perm_r, R.perm_c, n, n);
         int nops = rng_int(r, 0, 6); out->nops = nops;
         for (int k = 0; k < nops; k++) {
-            int op = rng_int(r, 0, 7);
+            int op = rng_int(r, 0, 9);
             if (verbose_tags) vf_tag(c, "op=%d", op);
             switch (op) {
             case 0: case 1: {   /* ?gstrs */
@@ -72,6 +72,36 @@ static void run_program(vf_case *c, const vf_api *P, const vf_mat *A, uint64_t p
                 const char *ul = rng_bool(r, 0.5) ? "L" : "U"; const char *tr = (const char *[]){ "N", "T", "C" }[rng_int(r, 0, 2)];
                 P->trsv((char *)ul, (char *)tr, (char *)(ul[0] == 'L' ? "U" : "N"), &R.L, &R.U, x, &R.stat, &info);
                 out->h = fnv64(out->h, x, P->ssz * (size_t)n); free(x); } break;
+            case 8: {           /* utility layer: row storage -> column storage (?CompRow_to_CompCol); the result must be the matrix, bit for bit */
+                SuperMatrix Ar; mk_sparse(P, A, 1, &Ar); const NRformat *rs = Ar.Store;
+                void *at = NULL; int_t *ri = NULL, *cp = NULL;
+                P->CompRow_to_CompCol(n, n, rs->nnz, rs->nzval, rs->colind, rs->rowptr, &at, &ri, &cp);
+                int bad = (at == NULL || ri == NULL || cp == NULL);
+                if (!bad) {   /* reference: stable counting sort by column of the row-major triples */
+                    int_t nz = rs->nnz, *rcp = calloc((size_t)n + 2, sizeof(int_t)), *nxt = calloc((size_t)n + 1, sizeof(int_t));
+                    for (int_t q = 0; q < nz; q++) rcp[rs->colind[q] + 1]++;
+                    for (int j = 0; j < n; j++) { rcp[j + 1] += rcp[j]; nxt[j] = rcp[j]; }
+                    for (int j = 0; j <= n && !bad; j++) bad = cp[j] != rcp[j];
+                    for (int i = 0; i < n && !bad; i++) for (int_t q = rs->rowptr[i]; q < rs->rowptr[i + 1] && !bad; q++) {
+                        int_t pos = nxt[rs->colind[q]]++;
+                        bad = ri[pos] != i || memcmp((char *)at + P->ssz * (size_t)pos, (char *)rs->nzval + P->ssz * (size_t)q, P->ssz) != 0; }
+                    free(rcp); free(nxt); }
+                if (bad) vf_viol(c, "util-rowcol-conversion", "?CompRow_to_CompCol did not return the matrix it was given (n=%d nnz=%lld)", n, (long long)A->nnz);
+                if (at) out->h = fnv64(out->h, at, P->ssz * (size_t)A->nnz);
+                if (at) SUPERLU_FREE(at); if (ri) SUPERLU_FREE(ri); if (cp) SUPERLU_FREE(cp); free_sparse(&Ar); } break;
+            case 9: {           /* utility layer: ?GenXtrue, ?FillRHS (B = op(A) X), ?Copy_Dense_Matrix with paddings */
+                int nrhs = rng_int(r, 1, 3), ldx = n + rng_int(r, 0, 2), ldb = n + rng_int(r, 0, 2), ldy = n + rng_int(r, 0, 3);
+                SuperMatrix B; mk_dense(P, n, nrhs, ldb, NULL, &B, 5.0L); SuperMatrix Xd; mk_dense(P, n, nrhs, ldx, NULL, &Xd, 7.0L); SuperMatrix Y; mk_dense(P, n, nrhs, ldy, NULL, &Y, 9.0L);
+                void *xv = ((DNformat *)Xd.Store)->nzval, *yv = ((DNformat *)Y.Store)->nzval, *bv = ((DNformat *)B.Store)->nzval;
+                P->GenXtrue(n, nrhs, xv, ldx);
+                trans_t t = rng_bool(r, 0.5) ? NOTRANS : TRANS;
+                P->FillRHS(t, nrhs, xv, ldx, &R.A, &B);
+                P->Copy_Dense(n, nrhs, bv, ldb, yv, ldy);
+                int bad = 0; for (int j = 0; j < nrhs && !bad; j++) bad = memcmp((char *)bv + P->ssz * (size_t)j * ldb, (char *)yv + P->ssz * (size_t)j * ldy, P->ssz * (size_t)n) != 0;
+                if (bad) vf_viol(c, "util-copy-dense", "?Copy_Dense_Matrix: the copy differs from the source (n=%d nrhs=%d ldb=%d ldy=%d)", n, nrhs, ldb, ldy);
+                if (!dense_padding_intact(P, &B, 5.0L) || !dense_padding_intact(P, &Xd, 7.0L) || !dense_padding_intact(P, &Y, 9.0L))
+                    vf_viol(c, "util-padding-written", "?GenXtrue / ?FillRHS / ?Copy_Dense_Matrix wrote between the columns of a padded array (n=%d nrhs=%d ldx=%d ldb=%d ldy=%d)", n, nrhs, ldx, ldb, ldy);
+                out->h = hash_dense(P, &Y, out->h); free_dense(&B); free_dense(&Xd); free_dense(&Y); } break;
             default: {          /* copy the matrix and destroy the copy */
                 SuperMatrix Bc; memset(&Bc, 0, sizeof Bc);
                 NCformat *as = R.A.Store; int_t nnz = as->nnz;
